@@ -15,9 +15,9 @@ ASSUME = ['functional correctness of masking only, not its side-channel order',
 
 
 def harnesses():
-    return [with_args(H['masked'], 'masked', [], 12000, 200000),
-            with_args(H['aead'], 'aead', ['--arg', 'enc:C10'], 8000, 100000),
-            with_args(H['aead'], 'aead', ['--arg', 'dec:C10'], 120, 3000)]
+    return [with_args(H['masked'], 'masked', [], 12000, 60000),
+            with_args(H['aead'], 'aead', ['--arg', 'enc:C10'], 8000, 30000),
+            with_args(H['aead'], 'aead', ['--arg', 'dec:C10'], 120, 600)]
 
 
 def run(ctx):
